@@ -3,11 +3,33 @@
   opsLoopsReversed        `for s in reversed(shape)` in BOTH `batchify` and `unbatchify` (nesting order)
   opsNumStartsDepotEnvs   the env-name list of `get_num_starts` whose members lose the depot (`num_starts - 1`)
   opsNoDepotStartEnvs     the env-name list of `select_start_nodes` whose members start at index 0 (`% num_loc`)
+  opsNoDepotInterleave / opsDepotInterleave   the `arange(...)` of the two generic branches is expanded with
+                          `.repeat_interleave(td.shape[0])` (true) / `.repeat(td.shape[0])` (false)
+  opsDepotArangeStart, opsDepotModAdd, opsDepotPlus   shape of the depot branch `arange(a0, …) % (num_loc + dm) + c`
+                          (source: `arange(num_starts) % num_loc + 1` → 0, 0, 1)
+  opsOpCountPerInstance   OP: `num_feasible = feasible.sum(-1, keepdim=True).clamp(min=…)` per instance (true) / reduced over the
+                          batch with `.min()` / `.max()` / `.mean()` … (false)
   opsOpClampMin           the constant of OP's `feasible.sum(-1, keepdim=True).clamp(min=1)` (cycle length floor)
   opsOpArgsortStable      OP's `torch.argsort((~feasible).int(), dim=-1, stable=True)` (feasible nodes ascending)
   opsSampleNReplaceCmp    operator of `n_valid_actions < n` in `sample_n_random_actions`
 
-The Lean model (`Rl4co/Train/{Batchify,Select}.lean`) takes them from `Params`; the C12 theorems unfold the
+C17 (rl4co/data/dataset.py, models/rl/reinforce/baselines.py, models/rl/common/base.py, tasks/eval.py):
+  dsExtraWriteUnconditional   `ExtraKeyDataset.__getitem__`: `data[self.key_name] = self.extra[idx]` is a plain statement of
+                              the function body (true) / sits under an `if`, `try`, loop … (false)
+  dsExtraIndexShift           … and the index of `self.extra[…]` is `idx` (0), `idx + c` (c) or `idx - c` (-c)
+  dsFastTdDirect              `FastTdDataset.__getitems__` is the single statement `return self.data[idx]` (true) / has
+                              further statements such as a fast path (false)
+  dsFastGenDirect             `TensorDictDatasetFastGeneration.__getitems__` indexes every entry with the index list as given
+  dsCollateInOrder            `TensorDictDataset.collate_fn` stacks `[b[key] for b in batch]` (the batch in the order given)
+  blRolloutPlainConcat        `RolloutBaseline.rollout` returns `torch.cat` of the per-batch results in loader order (list
+                              comprehension, or append-loop + cat) (true) / writes slices of a buffer inside the loop (false)
+  blRolloutLoaderPlain        its `DataLoader(dataset, batch_size=…, collate_fn=…)` has no `shuffle`, `drop_last`, `sampler` …
+  loaderShufflePassthrough    `RL4COLitModule._dataloader_single` passes `shuffle=shuffle`, `batch_size=batch_size`
+  evalCatInOrder              `EvalBase.__call__`: `torch.cat(rewards_list)` / `torch.cat([pad(a) for a in actions_list], 0)`
+  evalPadLeft                 the left amount of `pad(action, (0, max_length - action.size(-1)))` (0 = pad on the right)
+"true"/"false" are both *recognised* shapes; anything else is a pattern-miss.
+
+The Lean model (`Rl4co/Train/{Batchify,Select,Dataset}.lean`) takes them from `Params`; the C12 theorems unfold the
 committed values, so a source edit that changes one of them stops the proofs from compiling.
 Anything not recognised is a pattern-miss (committed default + correspondence only).
 """
@@ -126,3 +148,307 @@ def register(ex):
     ex.probe("opsSampleNReplaceCmp", "Cmp", ".lt",
              "utils/ops.py:sample_n_random_actions  `n_valid_actions < n`",
              ex.cmp_probe(REL, "sample_n_random_actions", "n_valid_actions", "n"))
+
+    def _ssn():
+        tree = ex.parse(REL)
+        return ex.find_function(tree, "select_start_nodes") if tree else None
+
+    def _generic_exprs():
+        """the two `selected = (...)` expressions of the generic branches (no-depot first, depot second)"""
+        fn = _ssn()
+        if fn is None:
+            return None
+        out = []
+        for n in ast.walk(fn):
+            if (isinstance(n, ast.Assign) and len(n.targets) == 1 and isinstance(n.targets[0], ast.Name) and n.targets[0].id == "selected"
+                    and any(isinstance(c, ast.Call) and ast.unparse(c.func) == "torch.arange" for c in ast.walk(n.value))
+                    and any(isinstance(c, ast.BinOp) and isinstance(c.op, ast.Mod) for c in ast.walk(n.value))):
+                out.append((n.lineno, n.value))
+        out = [v for _, v in sorted(out, key=lambda t: t[0])]
+        return out if len(out) == 2 else None
+
+    def _expander(expr):
+        """'repeat_interleave' / 'repeat' applied to torch.arange(...) with td.shape[0], and the arange call"""
+        for c in ast.walk(expr):
+            if (isinstance(c, ast.Call) and isinstance(c.func, ast.Attribute) and c.func.attr in ("repeat_interleave", "repeat")
+                    and isinstance(c.func.value, ast.Call) and ast.unparse(c.func.value.func) == "torch.arange"
+                    and len(c.args) == 1 and ast.unparse(c.args[0]).replace(" ", "") == "td.shape[0]"):
+                return c.func.attr, c.func.value
+        return None, None
+
+    def interleave(which):
+        def run():
+            es = _generic_exprs()
+            if es is None:
+                return None
+            kind, _ = _expander(es[which])
+            return None if kind is None else ("true" if kind == "repeat_interleave" else "false")
+        return run
+
+    def _arange_start(call):
+        pos = [a for a in call.args]
+        if len(pos) == 1 and ast.unparse(pos[0]) == "num_starts":
+            return 0
+        if (len(pos) == 2 and isinstance(pos[0], ast.Constant) and type(pos[0].value) is int and pos[0].value >= 0
+                and ast.unparse(pos[1]).replace(" ", "") == f"num_starts+{pos[0].value}"):
+            return pos[0].value
+        return None
+
+    def _depot_shape():
+        es = _generic_exprs()
+        if es is None:
+            return None
+        e = es[1]
+        plus = 0
+        if isinstance(e, ast.BinOp) and isinstance(e.op, ast.Add) and isinstance(e.right, ast.Constant) and type(e.right.value) is int:
+            plus, e = e.right.value, e.left
+        if not (isinstance(e, ast.BinOp) and isinstance(e.op, ast.Mod)):
+            return None
+        _, ar = _expander(e.left)
+        if ar is None:
+            return None
+        a0 = _arange_start(ar)
+        m = ast.unparse(e.right).replace(" ", "")
+        if m == "num_loc":
+            dm = 0
+        elif isinstance(e.right, ast.BinOp) and isinstance(e.right.op, ast.Add) and ast.unparse(e.right.left) == "num_loc" \
+                and isinstance(e.right.right, ast.Constant) and type(e.right.right.value) is int and e.right.right.value >= 0:
+            dm = e.right.right.value
+        else:
+            return None
+        if a0 is None or plus < 0:
+            return None
+        return a0, dm, plus
+
+    def depot_field(k):
+        def run():
+            sh = _depot_shape()
+            return None if sh is None else str(sh[k])
+        return run
+
+    def op_count_per_instance():
+        fn = _ssn()
+        if fn is None:
+            return None
+        for n in ast.walk(fn):
+            if isinstance(n, ast.Assign) and len(n.targets) == 1 and ast.unparse(n.targets[0]) == "num_feasible":
+                src = ast.unparse(n.value).replace(" ", "")
+                if src.startswith("feasible.sum(-1,keepdim=True).clamp(") and src.count("(") == 2:
+                    return "true"
+                if src.startswith("feasible.sum("):
+                    return "false"
+                return None
+        return None
+
+    ex.probe("opsNoDepotInterleave", "Bool", "true",
+             "utils/ops.py:select_start_nodes (tsp/atsp/flp/mcp)  `torch.arange(num_starts).repeat_interleave(td.shape[0])`", interleave(0))
+    ex.probe("opsDepotInterleave", "Bool", "true",
+             "utils/ops.py:select_start_nodes (depot envs)  `torch.arange(num_starts).repeat_interleave(td.shape[0])`", interleave(1))
+    ex.probe("opsDepotArangeStart", "Nat", "0", "utils/ops.py:select_start_nodes (depot envs)  first argument of `torch.arange`", depot_field(0))
+    ex.probe("opsDepotModAdd", "Nat", "0", "utils/ops.py:select_start_nodes (depot envs)  `% (num_loc + dm)`", depot_field(1))
+    ex.probe("opsDepotPlus", "Nat", "1", "utils/ops.py:select_start_nodes (depot envs)  `… % num_loc + 1`", depot_field(2))
+    ex.probe("opsOpCountPerInstance", "Bool", "true",
+             "utils/ops.py:select_start_nodes (op)  `num_feasible = feasible.sum(-1, keepdim=True).clamp(min=1)` (per instance)", op_count_per_instance)
+
+    # ------------------------------------------------------------------------------------------ C17
+    DS = "rl4co/data/dataset.py"
+    BL = "rl4co/models/rl/reinforce/baselines.py"
+    LM = "rl4co/models/rl/common/base.py"
+    EV = "rl4co/tasks/eval.py"
+
+    def _fn(rel, qual):
+        tree = ex.parse(rel)
+        return ex.find_function(tree, qual) if tree else None
+
+    def _body(fn):
+        """statements of a function without its docstring"""
+        b = list(fn.body)
+        if b and isinstance(b[0], ast.Expr) and isinstance(getattr(b[0], "value", None), ast.Constant) and isinstance(b[0].value.value, str):
+            b = b[1:]
+        return b
+
+    def _u(n):
+        return ast.unparse(n).replace(" ", "").replace('"', "'")
+
+    def _find_extra_assign(fn):
+        """(assign node, is_top_level) of `data[self.key_name] = self.extra[...]`"""
+        for top in _body(fn):
+            for n in ast.walk(top):
+                if (isinstance(n, ast.Assign) and len(n.targets) == 1 and _u(n.targets[0]) == "data[self.key_name]"
+                        and isinstance(n.value, ast.Subscript) and _u(n.value.value) == "self.extra"):
+                    return n, (n is top)
+        return None, None
+
+    def extra_uncond():
+        fn = _fn(DS, "ExtraKeyDataset.__getitem__")
+        if fn is None:
+            return None
+        n, top = _find_extra_assign(fn)
+        if n is None:
+            return None
+        return "true" if top else "false"
+
+    def extra_shift():
+        fn = _fn(DS, "ExtraKeyDataset.__getitem__")
+        if fn is None:
+            return None
+        n, _ = _find_extra_assign(fn)
+        if n is None:
+            return None
+        i = n.value.slice
+        if _u(i) == "idx":
+            return "0"
+        if isinstance(i, ast.BinOp) and _u(i.left) == "idx" and isinstance(i.right, ast.Constant) and type(i.right.value) is int:
+            if isinstance(i.op, ast.Add):
+                return str(i.right.value)
+            if isinstance(i.op, ast.Sub):
+                return f"({-i.right.value})" if i.right.value else "0"
+        return None
+
+    def fasttd_direct():
+        fn = _fn(DS, "FastTdDataset.__getitems__")
+        if fn is None:
+            return None
+        b = _body(fn)
+        if len(b) == 1 and isinstance(b[0], ast.Return) and b[0].value is not None and _u(b[0].value) == "self.data[idx]":
+            return "true"
+        if any(isinstance(x, ast.Return) for x in ast.walk(fn)):
+            return "false"
+        return None
+
+    def fastgen_direct():
+        fn = _fn(DS, "TensorDictDatasetFastGeneration.__getitems__")
+        if fn is None:
+            return None
+        b = _body(fn)
+        comps = [n for n in ast.walk(fn) if isinstance(n, ast.DictComp)]
+        if len(b) == 1 and isinstance(b[0], ast.Return) and len(comps) == 1:
+            c = comps[0]
+            if _u(c.value) == "item[index]" and _u(c.generators[0].iter) == "self.data.items()" and not c.generators[0].ifs:
+                return "true"
+            return "false"
+        if any(isinstance(x, ast.Return) for x in ast.walk(fn)):
+            return "false"
+        return None
+
+    def collate_in_order():
+        fn = _fn(DS, "TensorDictDataset.collate_fn")
+        if fn is None:
+            return None
+        lcs = [n for n in ast.walk(fn) if isinstance(n, ast.ListComp)]
+        if len(lcs) != 1:
+            return None
+        lc = lcs[0]
+        if _u(lc.elt) == "b[key]" and len(lc.generators) == 1 and not lc.generators[0].ifs:
+            return "true" if _u(lc.generators[0].iter) == "batch" else "false"
+        return None
+
+    def rollout_concat():
+        fn = _fn(BL, "RolloutBaseline.rollout")
+        if fn is None:
+            return None
+        loops = [n for n in ast.walk(fn) if isinstance(n, ast.For)]
+        # (a) torch.cat([eval_policy(batch) for batch in dl], 0)
+        for n in ast.walk(fn):
+            if (isinstance(n, ast.Call) and _u(n.func) == "torch.cat" and n.args and isinstance(n.args[0], ast.ListComp)):
+                lc = n.args[0]
+                dim0 = (len(n.args) == 1 and not n.keywords) or (len(n.args) == 2 and _u(n.args[1]) == "0") or \
+                    (len(n.args) == 1 and len(n.keywords) == 1 and n.keywords[0].arg == "dim" and _u(n.keywords[0].value) == "0")
+                if (len(lc.generators) == 1 and _u(lc.generators[0].iter) == "dl" and not lc.generators[0].ifs and dim0
+                        and isinstance(lc.elt, ast.Call) and len(lc.elt.args) == 1 and _u(lc.elt.args[0]) == _u(lc.generators[0].target)):
+                    return "true"
+                return "false"
+        # (b) a loop writing slices of a preallocated buffer: alignment then hangs on index arithmetic
+        for lp in loops:
+            for n in ast.walk(lp):
+                if isinstance(n, ast.Assign) and any(isinstance(t, ast.Subscript) for t in n.targets):
+                    return "false"
+        return None
+
+    def rollout_loader_plain():
+        fn = _fn(BL, "RolloutBaseline.rollout")
+        if fn is None:
+            return None
+        calls = [n for n in ast.walk(fn) if isinstance(n, ast.Call) and _u(n.func) == "DataLoader"]
+        if len(calls) != 1:
+            return None
+        c = calls[0]
+        kws = {k.arg: _u(k.value) for k in c.keywords}
+        if len(c.args) == 1 and _u(c.args[0]) == "dataset" and set(kws) == {"batch_size", "collate_fn"} \
+                and kws["batch_size"] == "batch_size" and kws["collate_fn"] == "dataset.collate_fn":
+            return "true"
+        return "false"
+
+    def shuffle_passthrough():
+        fn = _fn(LM, "RL4COLitModule._dataloader_single")
+        if fn is None:
+            return None
+        calls = [n for n in ast.walk(fn) if isinstance(n, ast.Call) and _u(n.func) == "DataLoader"]
+        if len(calls) != 1:
+            return None
+        c = calls[0]
+        kws = {k.arg: _u(k.value) for k in c.keywords}
+        if not (len(c.args) == 1 and _u(c.args[0]) == "dataset"):
+            return None
+        ok = kws.get("shuffle") == "shuffle" and kws.get("batch_size") == "batch_size" and kws.get("collate_fn") == "dataset.collate_fn" \
+            and not ({"drop_last", "sampler", "batch_sampler"} & set(kws))
+        return "true" if ok else "false"
+
+    def _eval_cats():
+        fn = _fn(EV, "EvalBase.__call__")
+        if fn is None:
+            return None, None
+        rew = act = None
+        for n in ast.walk(fn):
+            if isinstance(n, ast.Call) and _u(n.func) == "torch.cat" and n.args:
+                if _u(n.args[0]) == "rewards_list":
+                    rew = n
+                elif isinstance(n.args[0], ast.ListComp) and _u(n.args[0].generators[0].iter) == "actions_list":
+                    act = n
+        return rew, act
+
+    def eval_cat_in_order():
+        rew, act = _eval_cats()
+        if rew is None or act is None:
+            return None
+        lc = act.args[0]
+        ok = (len(lc.generators) == 1 and not lc.generators[0].ifs and len(act.args) == 2 and _u(act.args[1]) == "0"
+              and len(rew.args) == 1 and not rew.keywords)
+        return "true" if ok else "false"
+
+    def eval_pad_left():
+        _, act = _eval_cats()
+        if act is None:
+            return None
+        elt = act.args[0].elt
+        if not (isinstance(elt, ast.Call) and _u(elt.func).endswith("pad") and len(elt.args) == 2 and isinstance(elt.args[1], ast.Tuple)
+                and len(elt.args[1].elts) == 2):
+            return None
+        l, r = elt.args[1].elts
+        tgt = _u(act.args[0].generators[0].target)
+        if _u(elt.args[0]) != tgt:
+            return None
+        if isinstance(l, ast.Constant) and type(l.value) is int and l.value >= 0 and _u(r) == f"max_length-{tgt}.size(-1)":
+            return str(l.value)
+        if isinstance(r, ast.Constant) and type(r.value) is int and r.value == 0 and _u(l) == f"max_length-{tgt}.size(-1)":
+            return "1"  # everything padded on the left: encoded as a non-zero left amount
+        return None
+
+    ex.probe("dsExtraWriteUnconditional", "Bool", "true",
+             "data/dataset.py:ExtraKeyDataset.__getitem__  `data[self.key_name] = self.extra[idx]` as a plain body statement", extra_uncond)
+    ex.probe("dsExtraIndexShift", "Int", "0", "data/dataset.py:ExtraKeyDataset.__getitem__  index of `self.extra[idx]`", extra_shift)
+    ex.probe("dsFastTdDirect", "Bool", "true", "data/dataset.py:FastTdDataset.__getitems__  is `return self.data[idx]`", fasttd_direct)
+    ex.probe("dsFastGenDirect", "Bool", "true",
+             "data/dataset.py:TensorDictDatasetFastGeneration.__getitems__  `{key: item[index] for key, item in self.data.items()}`", fastgen_direct)
+    ex.probe("dsCollateInOrder", "Bool", "true",
+             "data/dataset.py:TensorDictDataset.collate_fn  `torch.stack([b[key] for b in batch])`", collate_in_order)
+    ex.probe("blRolloutPlainConcat", "Bool", "true",
+             "reinforce/baselines.py:RolloutBaseline.rollout  `torch.cat([eval_policy(batch) for batch in dl], 0)`", rollout_concat)
+    ex.probe("blRolloutLoaderPlain", "Bool", "true",
+             "reinforce/baselines.py:RolloutBaseline.rollout  `DataLoader(dataset, batch_size=batch_size, collate_fn=dataset.collate_fn)`", rollout_loader_plain)
+    ex.probe("loaderShufflePassthrough", "Bool", "true",
+             "rl/common/base.py:RL4COLitModule._dataloader_single  `DataLoader(dataset, batch_size=batch_size, shuffle=shuffle, …)`", shuffle_passthrough)
+    ex.probe("evalCatInOrder", "Bool", "true",
+             "tasks/eval.py:EvalBase.__call__  `torch.cat(rewards_list)`, `torch.cat([pad(a) for a in actions_list], 0)`", eval_cat_in_order)
+    ex.probe("evalPadLeft", "Nat", "0",
+             "tasks/eval.py:EvalBase.__call__  `pad(action, (0, max_length - action.size(-1)))`", eval_pad_left)
